@@ -195,3 +195,93 @@ func VH_C06_StalledBody() {
 	}
 	vhReach("c06-stalled-body")
 }
+
+// vhPerms3 lists the orders in which the broker may answer up to three requests.
+var vhPerms3 = [][]int{{0, 1, 2}, {0, 2, 1}, {1, 0, 2}, {1, 2, 0}, {2, 0, 1}, {2, 1, 0}}
+
+// H6 (level S with lock hand-off, see vhHandoff): n goroutines share one Conn. Every request is in flight before
+// the broker answers; the broker answers in an arbitrary order (mode 0), or answers only the last request of its
+// order and then drops the connection (mode 1). The request each goroutine sent is identified on the wire by the
+// timestamp it asks for, its correlation id is read back from the bytes written, and the response to that id carries
+// the goroutine's own (symbolic) offset: a goroutine that returns without error must return exactly that offset.
+func VH_C06_ConcurrentConn(n, mode int) {
+	vhConcreteClock(true)
+	vhHandoff(true)
+	fc := &vhFakeConn{gate: make(chan struct{})}
+	c := NewConnWith(fc, ConnConfig{Topic: "t", Partition: 0, ClientID: "vh"})
+	want := make([]int64, n)
+	got := make([]int64, n)
+	errs := make([]error, n)
+	done := make([]bool, n)
+	for i := 0; i < n; i++ {
+		want[i] = vhInt64("offset_of_call_" + string(rune('A'+i)))
+	}
+	for i := 0; i < n; i++ {
+		i := i
+		go func() {
+			got[i], errs[i] = c.readOffset(int64(1000 + i))
+			done[i] = true
+		}()
+	}
+	for k := 0; k < n+2; k++ {
+		vhRunAll()
+	}
+	// the requests on the wire, in the order they were written: correlation id -> calling goroutine
+	owner := map[int32]int{}
+	ids := make([]int32, n)
+	wr := fc.written
+	count := 0
+	for len(wr) >= 4 {
+		sz := int(int32(uint32(wr[0])<<24 | uint32(wr[1])<<16 | uint32(wr[2])<<8 | uint32(wr[3])))
+		vhAssert(sz >= 16 && len(wr) >= 4+sz, "request-frames-are-whole")
+		fr := wr[4 : 4+sz]
+		id := int32(uint32(fr[4])<<24 | uint32(fr[5])<<16 | uint32(fr[6])<<8 | uint32(fr[7]))
+		ts := fr[len(fr)-8:]
+		who := int(int64(uint64(ts[4])<<24|uint64(ts[5])<<16|uint64(ts[6])<<8|uint64(ts[7]))) - 1000
+		vhAssert(who >= 0 && who < n, "request-names-its-caller")
+		_, dup := owner[id]
+		vhAssert(!dup, "correlation-ids-are-distinct-among-in-flight-requests")
+		owner[id] = who
+		ids[who] = id
+		wr = wr[4+sz:]
+		count++
+	}
+	vhAssert(count == n && len(wr) == 0, "every-request-is-in-flight-before-the-broker-answers")
+	for i := 0; i < n; i++ {
+		vhAssert(!done[i], "calls-wait-for-their-responses")
+	}
+	perms := [][]int{{0, 1}, {1, 0}}
+	if n == 3 {
+		perms = vhPerms3
+	}
+	perm := perms[vhChoose("answer_order", len(perms))]
+	var data []byte
+	answered := make([]bool, n)
+	for k, who := range perm[:n] {
+		if mode == 1 && k != n-1 {
+			continue // mode 1: only the request answered last gets its answer, then the connection ends
+		}
+		data = append(data, vhListOffsetsFrame(ids[who], "t", 0, 0, int64(1000+who), want[who])...)
+		answered[who] = true
+	}
+	fc.data = data
+	fc.release()
+	for k := 0; k < 3*n+3; k++ {
+		vhRunAll()
+	}
+	for i := 0; i < n; i++ {
+		vhAssert(done[i], "every-call-returns")
+		vhAssert(errs[i] != nil || got[i] == want[i], "a-call-returns-the-answer-to-its-own-request-or-an-error")
+		if answered[i] && mode == 0 {
+			vhAssert(errs[i] == nil, "answered-call-succeeds")
+		}
+		if !answered[i] {
+			vhAssert(errs[i] != nil, "unanswered-call-fails")
+		}
+	}
+	if mode == 0 {
+		vhAssert(!fc.closed, "connection-kept-after-complete-exchanges")
+		vhAssert(c.concurrency() == 0, "no-call-left-in-flight")
+	}
+	vhReach("c06-concurrent-conn")
+}
